@@ -208,7 +208,7 @@ func reps(r *kit.Rand, n int) []int {
 }
 
 func gen(w *kit.Out, r *kit.Rand, tier string) {
-	nrep, nrand, nbound := 2, 4, 4
+	nrep, nrand, nbound := 2, 3, 3
 	if tier == "thorough" {
 		nrep, nrand, nbound = 3, 24, 1000
 	}
